@@ -514,7 +514,7 @@ func c17Queries(c *engine.Ctx) {
 	}
 	// contexts: text before the offender ends in a complete term at top level, so the offender cannot continue it
 	prefixes := []string{"1 ", ".a ", "[1, 2] | .[0] ", "def f: .;\n. as $x |\n  $x ", "1 as $x | # comment\n\t$x ", "\"é日本\" ", "\"" + strings.Repeat("日", 30) + "\" | .a ",
-		strings.Repeat("1 + ", 30) + "2 ", "{a: 1}\r\n| .a ", ".\r.a ", "\"a\\(1)b\" ", ".[\"k\"] ", "(1, 2) ", "{\"é\": [1]} | .[\"é\"] ", "  \t .a "}
+		strings.Repeat("1 + ", 30) + "2 ", "{a: 1}\r\n| .a ", ".\r.a ", "\"a\\(1)b\" ", ".[\"k\"] ", "(1, 2) ", "{\"é\": [1]} | .[\"é\"] ", "  \t .a ", "\n\n# leading blank lines\n.a ", "\r\n\r\n.a ", "\n.a\n| .b ", "\n\n\n1 "}
 	suffixes := []string{"", " | .", "\n| . + 1", " 日本"}
 	idx := 0
 	for _, pre := range prefixes {
@@ -620,7 +620,7 @@ func init() {
 		ID:    "C17",
 		Level: "fault_enumeration",
 		Rule: "well-formed multi-line documents of 3 kinds (one scalar per line; nested objects with multi-byte and double-width characters; lines longer than the excerpt window) x sizes {40 B, 500 B, 4 KiB, 16 KiB-1/+0/+1, 40 KiB, thorough 70 KiB} x line terminators {LF, CRLF, CR} x 0..3 preceding valid documents (3/9/14 KB, so the 16 KiB window reset falls before, inside and after the faulty document) are corrupted by replacing ONE byte (by ? and by 0xFF) at EVERY byte for small documents and at every byte within +-70 of each multiple of 4096 and 16384, +-6 of each multiple of 512 and the first/last 80 bytes otherwise; each corrupted stream goes through 8 transports (regular file; pipe delivered whole and in chunks of 1, 7, 512, 4096, 16384, 16385), as values and again token by token under --stream (quick: an eighth of the positions, file and whole-pipe transports). " +
-			"The absolute offset of the offending byte comes from encoding/json run by the harness on the same bytes; the reported line must be its 1-based line (LF, CRLF, CR), the quoted text a piece of that line covering it, and the caret under it in terminal columns (go-runewidth). Truncations under default/--stream/-s/--slurpfile; query errors: 52 offending token kinds x 15 contexts x 4 continuations, as argument and -f file, checked for ParseError Offset/Token and the caret.",
+			"The absolute offset of the offending byte comes from encoding/json run by the harness on the same bytes; the reported line must be its 1-based line (LF, CRLF, CR), the quoted text a piece of that line covering it, and the caret under it in terminal columns (go-runewidth). Truncations under default/--stream/-s/--slurpfile; query errors: 52 offending token kinds x 19 contexts (incl. leading blank lines) x 4 continuations, as argument and -f file, checked for ParseError Offset/Token and the caret.",
 		Assume:         []string{"encoding/json's SyntaxError.Offset on the harness's own decode of the same bytes locates the offending byte; go-runewidth gives terminal widths"},
 		Run:            c17Run,
 		Replay:         c17Replay,
